@@ -9,6 +9,12 @@ PROPS = {
     "C09": dict(machine="unitscope", level="fault_enumeration",
                 quick=dict(runs=8000, cap=60, selftest=150),
                 thorough=dict(runs=200000, cap=900, selftest=1500)),
+    "C07": dict(machine="quantity", level="exploration",
+                quick=dict(runs=16000, cap=60, selftest=150),
+                thorough=dict(runs=400000, cap=900, selftest=1500)),
+    "C04": dict(machine="quantity", level="exploration",
+                quick=dict(runs=16000, cap=60, selftest=150),
+                thorough=dict(runs=400000, cap=900, selftest=1500)),
 }
 
 
@@ -19,4 +25,7 @@ def machine(name):
     if name == "unitscope":
         from .m_unitscope import UnitScopeMachine
         return UnitScopeMachine
+    if name == "quantity":
+        from .m_quantity import QuantityMachine
+        return QuantityMachine
     raise KeyError(name)
